@@ -22,10 +22,15 @@
    read remembers how many changelog entries existed when it was taken ([ie_snap]), which is the
    provenance the theorems talk about.
 
-   A REQUEST is a list of iterator keys that are read one after the other (the reads a Check
-   performs); with the query cache on the whole answer is cached under that list.  Its answer is its
-   provenance: for every key the changelog length its data was read at.  A request is atomic (no
-   write between its datastore reads and the moment its cache entries are stamped).
+   A REQUEST is a forest of SUB-PROBLEMS ([qforest]: first child / next sibling).  A sub-problem has
+   an identity (its query-cache key: object, relation, user), performs its own datastore reads one
+   after the other and dispatches its children through the resolver chain, i.e. through the query
+   cache again (LocalChecker -> CachedCheckResolver).  With the query cache on, every sub-problem's
+   answer is cached under its identity, stamped when the sub-problem returns.  The top-level request
+   carries LastCacheInvalidationTime; ResolveCheckRequest.clone() hands it to every dispatched child
+   ([c_subinv] = true, as coded).  An answer is its provenance: for every read the changelog length
+   its data was read at.  A request is atomic (no write between its datastore reads and the moment
+   its cache entries are stamped).
 
    AN INVALIDATION RUN has three moments, which other operations may separate arbitrarily:
      [InvStart]  InvalidateIfNeeded: LoadOrStore on the in-flight map; the goroutine starts and reads
@@ -81,8 +86,6 @@ Definition mkey_eqb (a b : mkey) : bool :=
   | _, _ => false
   end.
 
-Definition qkey_eqb (a b : list ikey) : bool := list_eqb ikey_eqb a b.
-
 (* SPECIFICATION of the datastore: which changes alter the result of which read *)
 Definition touches (t : tup) (k : ikey) : bool :=
   match k with
@@ -129,7 +132,8 @@ Record cfg := mkCfg {
   c_full : N;          (* TTL of the store-wide marker: math.MaxInt truncated to one year by Set *)
   c_page : nat;        (* storage.DefaultPageSize = 50 *)
   c_jit : N;           (* cacheTTLJitterPercentage, 0..100 *)
-  c_wtick : N          (* clock units a write takes before it is stamped (1 = strictly monotone clock) *)
+  c_wtick : N;         (* clock units a write takes before it is stamped (1 = strictly monotone clock) *)
+  c_subinv : bool      (* clone() copies LastCacheInvalidationTime to dispatched sub-problems (true as coded) *)
 }.
 
 Record ient := mkIE { ie_lm : N; ie_exp : N; ie_snap : nat }.      (* TupleIteratorCacheEntry *)
@@ -146,7 +150,7 @@ Record state := mkSt {
   s_now : N;
   s_db : list change;
   s_ic : list (ikey * ient);
-  s_qc : list (list ikey * qent);
+  s_qc : list (N * qent);          (* query cache, keyed by the identity of the sub-problem *)
   s_cl : option clent;
   s_mk : list (mkey * ment);
   s_run : option runphase;     (* inflightInvalidations[store] *)
@@ -155,9 +159,23 @@ Record state := mkSt {
 
 Definition init_state : state := mkSt 0 [] [] [] None [] None 0%nat.
 
+(* sub-problems: identity, own reads, children (dispatched), next sibling *)
+Inductive qforest :=
+| QNil
+| QCons (id : N) (keys : list ikey) (children siblings : qforest).
+
+Definition qleaf (id : N) (keys : list ikey) : qforest := QCons id keys QNil QNil.
+
+(* no sub-problem dispatches another one *)
+Fixpoint forest_flat (f : qforest) : bool :=
+  match f with
+  | QNil => true
+  | QCons _ _ ch sib => (match ch with QNil => true | _ => false end) && forest_flat sib
+  end.
+
 Inductive op :=
 | Write (ws : list tup)
-| Request (keys : list ikey) (store : bool) (jq : N) (jis : list N)
+| Request (f : qforest) (store : bool) (jq : N) (jis : list N)
   (* store: whether the iterators were drained so that their results are flushed to the cache;
      jq / jis: the random jitter draws for the query entry / for the iterator entry of each key *)
 | InvStart
@@ -175,7 +193,9 @@ Inductive decision :=
 
 Inductive out :=
 | OUnit
-| OAns (answer : src) (qhit : bool) (ihits : list bool) (trigger spawned : bool)
+| OAns (answer : src) (qhits : list bool) (ihits : list bool) (trigger spawned : bool)
+  (* qhits: query-cache hit or miss of every sub-problem that was looked up, in order;
+     ihits: iterator-cache hit or miss of every read that was performed, in order *)
 | OStart (spawned : bool)
 | ORead (did : bool)
 | OFin (d : decision).
@@ -253,6 +273,45 @@ Definition res_src (res : list (ikey * nat * bool)) : src := map (fun x => (fst 
 Definition res_hits (res : list (ikey * nat * bool)) : list bool := map snd res.
 
 (* ------------------------------------------------------------------------------------------ *)
+(* CachedCheckResolver.ResolveCheck over a forest of sub-problems                              *)
+
+Definition qlookup (c : cfg) (now tinv : N) (qc : list (N * qent)) (id : N) : option qent :=
+  if c_qon c then
+    match aget N.eqb id qc with
+    | Some e => if (now <? qe_exp e) && (tinv <? qe_lm e) then Some e else None   (* LastModified.After(T) *)
+    | None => None
+    end
+  else None.
+
+Definition rstate := (list (ikey * ient) * list (N * qent))%type.
+Definition rout := (src * list bool * list bool)%type.
+
+Fixpoint resolve (c : cfg) (now : N) (n : nat) (mk : list (mkey * ment)) (store : bool) (jq : N) (jis : list N)
+         (tinv : N) (st : rstate) (f : qforest) : rstate * rout :=
+  match f with
+  | QNil => (st, ([], [], []))
+  | QCons id keys ch sib =>
+    let r1 :=
+      match qlookup c now tinv (snd st) id with
+      | Some e => (st, (qe_src e, [true], []))
+      | None =>
+        let rd := iter_reads c now n mk store jis (fst st) keys in
+        (* the children are dispatched with the clone of the request *)
+        let rc := resolve c now n mk store jq jis (if c_subinv c then tinv else 0) (fst rd, snd st) ch in
+        let a := res_src (snd rd) ++ fst (fst (snd rc)) in
+        let qc3 :=
+          if c_qon c
+          then aset N.eqb id (mkQE now (now + c_qttl c + jext (c_qttl c) (c_jit c) jq) a) (snd (fst rc))
+          else snd (fst rc) in
+        ((fst (fst rc), qc3), (a, false :: snd (fst (snd rc)), res_hits (snd rd) ++ snd (snd rc)))
+      end in
+    let r2 := resolve c now n mk store jq jis tinv (fst r1) sib in
+    (fst r2, (fst (fst (snd r1)) ++ fst (fst (snd r2)),
+              snd (fst (snd r1)) ++ snd (fst (snd r2)),
+              snd (snd r1) ++ snd (snd r2)))
+  end.
+
+(* ------------------------------------------------------------------------------------------ *)
 (* The run's decision (findChangesAndInvalidateIfNecessary after ReadChanges returned)         *)
 
 (* changes[idx].Timestamp.After(now - iteratorTTL) *)
@@ -316,28 +375,12 @@ Definition step (c : cfg) (s : state) (o : op) : state * out :=
     | Some (RRead r) => let '(s1, d) := finish c s r in (s1, OFin d)
     | _ => (s, OFin DNoRun)
     end
-  | Request keys store jq jis =>
+  | Request f store jq jis =>
     let '(tinv, trig) := determine c s in
     let '(s1, spawned) := if trig then spawn s else (s, false) in
-    let now := s_now s in
-    let hit :=
-      if c_qon c then
-        match aget qkey_eqb keys (s_qc s) with
-        | Some e => if (now <? qe_exp e) && (tinv <? qe_lm e) then Some e else None   (* LastModified.After(T) *)
-        | None => None
-        end
-      else None in
-    match hit with
-    | Some e => (s1, OAns (qe_src e) true [] trig spawned)
-    | None =>
-      let '(ic', res) := iter_reads c now (length (s_db s)) (s_mk s) store jis (s_ic s) keys in
-      let qc' :=
-        if c_qon c
-        then aset qkey_eqb keys (mkQE now (now + c_qttl c + jext (c_qttl c) (c_jit c) jq) (res_src res)) (s_qc s)
-        else s_qc s in
-      (mkSt now (s_db s) ic' qc' (s_cl s) (s_mk s) (s_run s1) (s_done s),
-       OAns (res_src res) false (res_hits res) trig spawned)
-    end
+    let r := resolve c (s_now s) (length (s_db s)) (s_mk s) store jq jis tinv (s_ic s, s_qc s) f in
+    (mkSt (s_now s) (s_db s) (fst (fst r)) (snd (fst r)) (s_cl s) (s_mk s) (s_run s1) (s_done s),
+     OAns (fst (fst (snd r))) (snd (fst (snd r))) (snd (snd r)) trig spawned)
   end.
 
 Definition run_ops (c : cfg) (h : list op) (s : state) : state :=
@@ -376,7 +419,20 @@ Definition view (db : list change) (k : ikey) (n : nat) : list change :=
    an iterator entry, non-empty changelog page *)
 Definition cfg_ok (c : cfg) : bool :=
   negb (c_qon c && c_ion c) && (c_jit c =? 0) && (1 <=? c_wtick c) && (0 <? c_qttl c) && (0 <? c_ittl c)
-  && (c_ittl c <=? c_full c) && Nat.leb 1 (c_page c).
+  && (c_ittl c <=? c_full c) && Nat.leb 1 (c_page c) && c_subinv c.
+
+(* A request that dispatches sub-problems through the query cache must not fall between a write and
+   the completion of a run that read after it (otherwise a parent is re-stamped AFTER the write with
+   the content of a child entry from BEFORE the write: subproblem_restamp_refuted) *)
+Definition req_ok (c : cfg) (s : state) (f : qforest) : bool :=
+  negb (c_qon c) || forest_flat f || Nat.eqb (s_done s) (length (s_db s)).
+
+Fixpoint hist_ok (c : cfg) (h : list op) (s : state) : bool :=
+  match h with
+  | [] => true
+  | o :: r =>
+    (match o with Request f _ _ _ => req_ok c s f | _ => true end) && hist_ok c r (fst (step c s o))
+  end.
 
 (* cfg_ok without its first two conjuncts (used by the refutations) *)
 Definition cfg_rest (c : cfg) : bool :=
@@ -387,7 +443,7 @@ Definition no_finish (h : list op) : bool :=
 
 (* the configuration of a real server (times in milliseconds): both TTLs 10 s, controller 10 s *)
 Definition real_cfg (qon ion : bool) (jit : N) : cfg :=
-  mkCfg qon ion 10000 10000 10000 31536000000 50 jit 1.
+  mkCfg qon ion 10000 10000 10000 31536000000 50 jit 1 true.
 
 (* ------------------------------------------------------------------------------------------ *)
 (* "Invalidation only forces recomputation"                                                    *)
@@ -399,8 +455,10 @@ Definition i_usable (s : state) (k : ikey) (e : ient) : Prop :=
   aget ikey_eqb k (s_ic s) = Some e /\ s_now s < ie_exp e /\
   invalid_at (s_mk s) (s_now s) (ie_lm e) k = false.
 
-Definition q_usable (c : cfg) (s : state) (ks : list ikey) (e : qent) : Prop :=
-  aget qkey_eqb ks (s_qc s) = Some e /\ s_now s < qe_exp e /\ inval_time c s < qe_lm e.
+(* with the time as coded, or with time zero when sub-problems do not get the time *)
+Definition q_usable (c : cfg) (s : state) (id : N) (e : qent) : Prop :=
+  c_qon c = true /\ aget N.eqb id (s_qc s) = Some e /\ s_now s < qe_exp e /\
+  (inval_time c s < qe_lm e \/ c_subinv c = false).
 
 (* s' is s after "more invalidation": same clock and store, data entries removed but never added
    or altered, every marker still present and not older / not shorter-lived, a later
@@ -408,7 +466,7 @@ Definition q_usable (c : cfg) (s : state) (ks : list ikey) (e : qent) : Prop :=
 Definition more_invalid (c : cfg) (s s' : state) : Prop :=
   s_now s' = s_now s /\ s_db s' = s_db s /\
   (forall k e, aget ikey_eqb k (s_ic s') = Some e -> aget ikey_eqb k (s_ic s) = Some e) /\
-  (forall ks e, aget qkey_eqb ks (s_qc s') = Some e -> aget qkey_eqb ks (s_qc s) = Some e) /\
+  (forall id e, aget N.eqb id (s_qc s') = Some e -> aget N.eqb id (s_qc s) = Some e) /\
   (forall m e, aget mkey_eqb m (s_mk s) = Some e ->
      exists e', aget mkey_eqb m (s_mk s') = Some e' /\ me_lm e <= me_lm e' /\ me_exp e <= me_exp e') /\
   inval_time c s <= inval_time c s'.
@@ -416,15 +474,9 @@ Definition more_invalid (c : cfg) (s s' : state) : Prop :=
 (* every usable entry holds what an uncached read would return now *)
 Definition cache_consistent (c : cfg) (s : state) : Prop :=
   (forall k e, i_usable s k e -> view (s_db s) k (ie_snap e) = view (s_db s) k (length (s_db s))) /\
-  (forall ks e, q_usable c s ks e ->
-     map fst (qe_src e) = ks /\
+  (forall id e, q_usable c s id e ->
      forall k n, In (k, n) (qe_src e) -> view (s_db s) k n = view (s_db s) k (length (s_db s))).
 
 Definition controller_op (o : op) : bool :=
   match o with InvStart | InvRead | InvFinish => true | _ => false end.
 
-(* the data an answer was computed from / the data an uncached evaluation reads *)
-Definition answer_views (db : list change) (a : src) : list (list change) :=
-  map (fun p => view db (fst p) (snd p)) a.
-Definition uncached_views (db : list change) (keys : list ikey) : list (list change) :=
-  map (fun k => view db k (length db)) keys.
